@@ -11,8 +11,9 @@ Inductive pxitem := PxResponse.
 (* the coroutine has a single suspension point *)
 Definition px_resume (_ : unit) (buf : bytes) : res unit pxitem pxerr :=
   match r_status (parse_response buf) with
-  | Some 200 => RItem PxResponse tt (AwBytes false) 1     (* after `yield response` the generator is finished; never resumed *)
-  | _ => RErr PxStatus
+  | Some st => if st =? 200 then RItem PxResponse tt (AwBytes false) 1   (* after `yield response` the generator is finished *)
+               else RErr PxStatus
+  | None => RErr PxStatus
   end.
 Definition px_validate (g : unit) (_ : bytes) : option unit := Some g.
 
